@@ -154,6 +154,7 @@ def gen_descs(ctx):
     a = tfimpl.dy(rng, -4, 4)
     omin = a if bmode in ("min", "both") else None
     omax = (a + rng.choice([0.5, 1.0, 2.0, 5.0])) if bmode in ("max", "both") else None
+    omin, omax = tfimpl.zero_bound(rng, omin, omax)
     clip = rng.random() < 0.6
     kclass = rng.choice(["random", "random", "negative", "far", "ties", "sorted", "zeros", "power", "power", "small"])
     sclass = rng.choice(["random", "random", "zeros", "pos", "neg", "large", "tiny"])
@@ -188,6 +189,7 @@ def gen_descs(ctx):
     a = tfimpl.dy(rng, -4, 4)
     omin = a if bmode in ("min", "both") else None
     omax = (a + rng.choice([0.5, 1.0, 2.0, 5.0])) if bmode in ("max", "both") else None
+    omin, omax = tfimpl.zero_bound(rng, omin, omax)
     s0 = _scale(rng, rng.choice(["random", "zeros", "pos", "neg", "large"]), units, terms, omin, omax)
     ms = [rng.choice([0, 1, 1]) for _ in range(dims)]
     if fn == "W" and rng.random() < 0.2:
